@@ -73,7 +73,7 @@ class Core:
     """one generated Lean file: a set of methods reachable from each other"""
 
     def __init__(self, repo, name, sources, ignore=(), effects=None, observers=(), pure=None, records=None, links=None,
-                 consts=None, attr_effects=(), doc="", heap=False, opaque=None, oracles=None, ignore_targets=(), ignore_calls=(), observers_args=(), lists=None, observe_text=()):
+                 consts=None, attr_effects=(), doc="", heap=False, opaque=None, oracles=None, ignore_targets=(), ignore_calls=(), observers_args=(), lists=None, observe_text=(), bases=None, opaque_text=None):
         self.repo = repo
         self.name = name
         self.sources = sources  # list of (relative file, class name, [method names])
@@ -102,6 +102,9 @@ class Core:
         self.lists = lists or {}
         # calls read as one environment key each, by their source text (`isinstance(self.left, Function)`, `self._left_nocontrib(self.left)`)
         self.observe_text = set(observe_text)
+        # class -> base class (methods a class inherits are looked up there); calls into the world named by their source text
+        self.bases = bases or {}
+        self.opaque_text = opaque_text or {}
         self.loopn = 0
         self.P = "Py.H." if heap else "Py."          # statement combinators
         self.EV = " env" if heap else ""             # the environment argument of the combinators
@@ -181,6 +184,8 @@ class Core:
                 res = True      # (a call on an element of an object list is a call into the world)
             if isinstance(node, ast.Assign) and any(isinstance(t, ast.Subscript) for t in node.targets):
                 res = True
+            if isinstance(node, ast.Call) and ast.unparse(node.func) in self.opaque_text:
+                res = True
             if isinstance(node, ast.Call):
                 d = dotted(node.func)
                 if d is not None and (d in self.effects or d in self.opaque):
@@ -228,8 +233,10 @@ class Core:
             tcls = self.links[(cls, obj)]
         else:
             return None
-        if (tcls, call.func.attr) in self.methods:
-            return tcls, call.func.attr, obj
+        while tcls is not None:
+            if (tcls, call.func.attr) in self.methods:
+                return tcls, call.func.attr, obj
+            tcls = self.bases.get(tcls)
         return None
 
     # ---------------------------------------------------------------- loops over object lists
@@ -632,6 +639,12 @@ class Core:
                 wname, args = self.elem_call(value, ctx)
                 return (pad + f"Py.H.call ext {lean_str(wname)} [{', '.join(args)}] env effs fun v_{t.id} env effs =>\n"
                         + self.block(rest, k, ctx, ind))
+            if isinstance(t, ast.Name) and isinstance(value, ast.Call) and ast.unparse(value.func) in self.opaque_text:
+                if not self.heap:
+                    raise Untranslatable(f"{where()}: opaque call {ast.unparse(value.func)}")
+                args = ", ".join([self.expr(a, ctx) for a in value.args] + [self.expr(kw.value, ctx) for kw in value.keywords])
+                return (pad + f"Py.H.call ext {lean_str(self.opaque_text[ast.unparse(value.func)])} [{args}] env effs fun v_{t.id} env effs =>\n"
+                        + self.block(rest, k, ctx, ind))
             if isinstance(t, ast.Name):
                 if isinstance(value, ast.Call):
                     d = dotted(value.func)
@@ -670,6 +683,12 @@ class Core:
         if isinstance(s, ast.Expr) and self.elem_call(s.value, ctx) is not None:
             wname, args = self.elem_call(s.value, ctx)
             return (pad + f"Py.H.call ext {lean_str(wname)} [{', '.join(args)}] env effs fun _ env effs =>\n"
+                    + self.block(rest, k, ctx, ind))
+        if isinstance(s, ast.Expr) and isinstance(s.value, ast.Call) and ast.unparse(s.value.func) in self.opaque_text:
+            if not self.heap:
+                raise Untranslatable(f"{where()}: opaque call {ast.unparse(s.value.func)}")
+            args = ", ".join([self.expr(a, ctx) for a in s.value.args] + [self.expr(kw.value, ctx) for kw in s.value.keywords])
+            return (pad + f"Py.H.call ext {lean_str(self.opaque_text[ast.unparse(s.value.func)])} [{args}] env effs fun _ env effs =>\n"
                     + self.block(rest, k, ctx, ind))
         if isinstance(s, ast.Expr) and isinstance(s.value, ast.Call):
             call = s.value
